@@ -292,6 +292,12 @@ def _one_op_defs():
     out.append(mk("reciprocal", add(div(C(1), S("y")), S("x"))))
     out.append(mk("neg-one-coeff", sub(S("x"), mul(DT, S("y")))))
     out.append(mk("neg-two-coeff", sub(S("x"), mul(C(2), mul(DT, S("y"))))))
+    # a function applied to its own inverse partner outside the principal range (grid values reach +-3.5): atan(tan(u)) != u
+    out.append(mk("atan-tan-state", fn("atan", fn("tan", S("x")))))
+    out.append(mk("atan-tan-sum", add(fn("atan", fn("tan", add(S("x"), mul(DT, S("u"))))), S("y"))))
+    out.append(mk("tan-atan-cal", fn("tan", fn("atan", mul(S("c"), S("x"))))))
+    out.append(mk("log-exp-state", add(fn("log", fn("exp", mul(C(1, 4), S("x")))), S("u"))))
+    out.append(mk("sqrt-square-control", add(fn("sqrt", pw(S("u"), 2)), S("x"))))
     # depth-3 mixes
     out.append(mk("mix1", div(mul(fn("sin", add(S("x"), S("u"))), fn("exp", mul(C(1, 4), S("c")))), add(pw(S("y"), 2), C(1)))))
     out.append(mk("mix2", sub(pw(add(S("x"), mul(DT, S("u"))), 3), fn("atan", mul(S("c"), S("y"))))))
@@ -302,7 +308,8 @@ def _one_op_defs():
 def family_ops(tier):
     d = _one_op_defs()
     if tier == "quick":
-        keep = [x for x in d if any(t in x["name"] for t in ("div-by-", "inv-square", "reciprocal", "neg-one", "neg-two"))]
+        keep = [x for x in d if any(t in x["name"] for t in ("div-by-", "inv-square", "reciprocal", "neg-one", "neg-two", "atan-tan", "tan-atan",
+                                                              "log-exp", "sqrt-square", "only-", "other-state", "const-", "identity"))]
         return d[::3] + [x for x in keep if x not in d[::3]]
     return d
 
